@@ -151,6 +151,15 @@ def v3_data_mutations(rng, key, frame: bytes, full=False):
     return out
 
 
+def v3_floods(rng):
+    """Long runs of minimal well-framed packets delivered back to back (a few KB, no key needed)."""
+    out = []
+    for typ, n in ((1, 1500), (0, 1200), (6, 1200), (15, 1100), (2, 1100), (1, 300)):
+        out.append(b"".join(landev.v3_plain_packet(typ, j & 0xFFFF, b"") for j in range(n)))
+    out.append(b"".join(landev.v3_plain_packet(1, 0, rb(rng, 64)) for _ in range(1100)))
+    return out
+
+
 def v3_hs_mutations(rng, key, sesskey, full=False):
     nonce = rb(rng, 32)
     p = landev.v3_plain_packet(1, 0, landev.hs_reply_payload(key, nonce))
@@ -209,6 +218,8 @@ def batch(ver, phase, muts, *, seed, target="lan", level="lan"):
                     fr = acdev.ACModel().state_frame(ftype=5)
                     if ver == 3:
                         cid = len(s.net.conns) - 1
+                        if cid < 0 or not s.dev.sess.get(cid, {}).get("key"):
+                            break                                  # the client never got a session up (judged from the events so far)
                         pkt = landev.v3_enc_packet(s.dev.sess[cid]["key"], landev.v2_wrap(fr, 7), 900 + n)
                     else:
                         pkt = landev.v2_wrap(fr, 7)
@@ -328,7 +339,9 @@ def rehandshake_runs(ctx: Ctx):
                                 s.call_send()
                             s.settle()
                         cid = len(s.net.conns) - 1
-                        sk = s.dev.sess[cid]["key"]
+                        sk = s.dev.sess.get(cid, {}).get("key") if cid >= 0 else None
+                        if not sk:
+                            break                                  # no session could be brought up (judged from the events so far)
                         m = landev.v3_enc_packet(sk, rb(rng, ln), 40 + n) if ln != 64 or n % 2 else landev.v3_plain_packet(1, 0, landev.hs_reply_payload(sk, rb(rng, 32)))
                         r = raw(m)
                         if mode == "explicit":
@@ -372,6 +385,9 @@ def collect(ctx: Ctx):
             (3, "read", v3_data_mutations(rng, key, frame, full), "lan", "lan"),
             (3, "read", v3_data_mutations(rng, key, frame, False), "ac", "lan"),
             (3, "queued", v3_data_mutations(rng, key, frame, False), "lan", "lan"),
+            (3, "read", v3_floods(rng), "lan", "lan"),
+            (3, "read", v3_floods(rng)[:3], "ac", "lan"),
+            (3, "queued", v3_floods(rng)[:3], "lan", "lan"),
             (2, "read", v2_mutations(rng, frame, full), "lan", "lan"),
             (2, "read", v2_mutations(rng, frame, False), "ac", "lan"),
             (2, "queued", v2_mutations(rng, frame, False), "lan", "lan"),
